@@ -178,8 +178,13 @@ def correspond(ctx):
             return ("ver-%s" % kind, "verification %s where the construction of the case demands %s" % (kind, want))
         return None
 
+    def on_disagree(case, impl, model):
+        if impl.endswith("T") and model.endswith("F"):
+            return ("accepts-what-rfc7515-rejects", "jose verifies a token that the independent RFC 7515 verifier (Gallina model) rejects")
+        return None
+
     st = runner.standard(
-        ctx, [c for c, _ in hm], oracle, lambda c, o: True,
+        ctx, [c for c, _ in hm], oracle, lambda c, o: True, on_disagree=on_disagree,
         rule="tokens produced by the library for every signature algorithm; verification with the signing key / its public half in single, array, JWKSet, empty shapes and any/all; single-character mutations of payload, protected, signature and key; structural mutations; every composition of the payload text into feeds; multi-signature tokens. HMAC cases are also run on the extracted model; RSA/EC cases on the BigZ model inside coqc. non-trivial = all (every case exercises the verifier)",
         dist=dist)
     # ---- public-key tokens: implementation + oracle, model through coqc
